@@ -259,6 +259,11 @@ def run(ctx):
         scfg = fw.write_cfg(ctx.path("MC_SqrtAlg_%s.cfg" % nm), invariants=["SqrtOK"], constants={"W": w, "HalfLens": hl, "Stride": st})
         ctx.mc("mc-sqrtalg-" + nm, SPEC, "SqrtAlg.tla", scfg, workers=4, timeout=2400)
     ctx.scope["sqrt_alg_scopes"] = [list(x) for x in sq]
+    # the Lehmer gcd loop at word level: single-word and double-word guesses, signed double-word step, every pair in scope
+    lg = [("w3", 3, 1023, 1, "FALSE"), ("w3d", 3, 1023, 1, "TRUE")] + ([] if ctx.quick else [("w4", 4, 4095, 7, "FALSE"), ("w4d", 4, 4095, 7, "TRUE"), ("w3x", 3, 4095, 5, "TRUE")])
+    for nm, w, xmax, ys, dw in lg:
+        gcfg2 = fw.write_cfg(ctx.path("MC_GcdLehmerAlg_%s.cfg" % nm), invariants=["GcdOK"], constants={"W": w, "XMax": xmax, "YStride": ys, "Dword": dw})
+        ctx.mc("mc-lehmer-" + nm, SPEC, "GcdLehmerAlg.tla", gcfg2, workers=4, timeout=2400)
 
     # 2. spec -> impl: the partition enumerated by TLC
     step16 = ctx.pick(32, 1)
